@@ -29,7 +29,17 @@ struct StepJ { act: ActJ, ret: ResJ, #[serde(default)] obs: Option<ObsJ> }
 struct BehaviourJ { steps: Vec<StepJ> }
 
 // ---- the same abstraction functions as harness/src/drive.rs ---------------------------------
+/// "scr": keys that differ in several bytes, ordered one way from the first byte and the other way from the
+/// last one (so that nothing about the byte order of comparisons goes unnoticed)
+static SCRAMBLED: std::sync::atomic::AtomicBool = std::sync::atomic::AtomicBool::new(false);
 fn key_bytes<const N: usize>(num: u64) -> ArrayKey<N> {
+    if SCRAMBLED.load(std::sync::atomic::Ordering::SeqCst) {
+        let mut b = [0u8; N];
+        for j in 0..N { b[j] = ((num * 37 + (j as u64) * 11) % 251) as u8; }
+        b[0] = (num % 251) as u8;
+        b[N - 1] = (250 - (num * 7) % 251) as u8;
+        return ArrayKey::from(b);
+    }
     let mut b = [0u8; N];
     let be = num.to_be_bytes();
     let n = N.min(8);
@@ -159,7 +169,7 @@ async fn run<const N: usize>(dir: PathBuf, bloom: String, beh: BehaviourJ, nkeys
     }
     st.close().await.map_err(|e| format!("close {e:#}"))?;
     let last = beh.steps.last().and_then(|s| s.obs.clone()).ok_or("no final observation")?;
-    let meta = serde_json::json!({"ks": N, "bloom": bloom, "nkeys": nkeys, "steps": beh.steps.iter().map(|s| &s.act).collect::<Vec<_>>(),
+    let meta = serde_json::json!({"ks": N, "bloom": bloom, "nkeys": nkeys, "keymap": if SCRAMBLED.load(std::sync::atomic::Ordering::SeqCst) { "scr" } else { "" }, "steps": beh.steps.iter().map(|s| &s.act).collect::<Vec<_>>(),
         "payloads": payloads.iter().map(|(k, v)| (k.to_string(), v.len())).collect::<BTreeMap<_, _>>(), "expected": last});
     std::fs::write(dir.join("expected.json"), serde_json::to_vec_pretty(&meta).unwrap()).map_err(|e| e.to_string())?;
     let _ = std::fs::remove_file(dir.join("pearl.lock"));
@@ -172,6 +182,8 @@ fn main() {
     let ks: usize = a[2].parse().unwrap();
     let bloom = a[3].clone();
     let nkeys: u64 = a.get(4).and_then(|s| s.parse().ok()).unwrap_or(2);
+    let keymap = a.get(5).cloned().unwrap_or_default();
+    SCRAMBLED.store(keymap == "scr", std::sync::atomic::Ordering::SeqCst);
     let rt = tokio::runtime::Builder::new_multi_thread().worker_threads(2).enable_all().build().unwrap();
     let stdin = std::io::stdin();
     let (mut n, mut kept) = (0, 0);
@@ -180,7 +192,7 @@ fn main() {
         let text = match tlc_line_payload(&line) { Some(t) => t, None => continue };
         let beh: BehaviourJ = serde_json::from_str(&text).expect("behaviour");
         n += 1;
-        let dir = out.join(format!("k{}-{}-{:03}", ks, bloom, n));
+        let dir = out.join(format!("k{}-{}{}-{:03}", ks, bloom, if keymap.is_empty() { String::new() } else { format!("-{keymap}") }, n));
         let (d2, b2, bl) = (dir.clone(), beh.clone(), bloom.clone());
         let r = rt.block_on(async move {
             match ks { 4 => run::<4>(d2, bl, b2, nkeys).await, 8 => run::<8>(d2, bl, b2, nkeys).await, 16 => run::<16>(d2, bl, b2, nkeys).await, 32 => run::<32>(d2, bl, b2, nkeys).await, _ => Err("unsupported key size".into()) }
